@@ -696,8 +696,40 @@ Section Monitors2.
     else VOk.
 End Monitors2.
 
+(* ---------- C20: stale-while-revalidate answers at once, one bounded background request ---------- *)
+(* T: the effective timeout.  Codes: 1 the caller waited; 2 not exactly one background request where the
+   stale response could only be served under stale-while-revalidate; 3 a background request lasted longer
+   than T; 4 the stored validators are not on the background request; 5 more than one background request *)
+Definition other_allowance (s : stored_view) (q : request) (now : Z) : bool :=
+  let rcc := spec_cc (q_hdr q) in
+  sd_has (bs "only-if-cached") rcc ||
+  match sd_arg (bs "max-stale") rcc with Some _ => true | None => false end.
+
+Definition mon_C20 (T : Z) script (prefix_events : list event) (q : request) (o : exchange_obs) : verdict :=
+  let bg := bg_calls o in
+  let bounded := forallb (fun c => match c with (_, _, a, b, _) => b - a <=? T end) bg in
+  let general := if negb bounded then VBad 3 else if 1 <? Z.of_nat (List.length bg) then VBad 5 else
+                 match bg with [] => VNa | _ => VOk end in
+  match classify script o, fg_calls o, stored_of prefix_events o with
+  | FromStore, [], Some s =>
+      if negb (fresh_enough s q (x_t0 o)) && negb (other_allowance s q (x_t0 o)) && staleness_allowed s q (x_t0 o) then
+        (* served stale, and only stale-while-revalidate permits it *)
+        if negb (x_t1 o =? x_t0 o) then VBad 1
+        else match bg with
+             | [(_, bq, _, _, _)] =>
+                 let et := hget (bs "ETag") (sv_hdr s) in
+                 let lm := hget (bs "Last-Modified") (sv_hdr s) in
+                 if (beq et [] || beq (hget (bs "If-None-Match") (q_hdr bq)) et) &&
+                    (beq lm [] || beq (hget (bs "If-Modified-Since") (q_hdr bq)) lm)
+                 then vand VOk general else VBad 4
+             | _ => VBad 2
+             end
+      else general
+  | _, _, _ => general
+  end.
+
 (* ---------- all monitors over a whole observed history ---------- *)
-Fixpoint monitor_all_from (script : list (Z * origin_reply * origin_reply)) (past : hist) (h : hist)
+Fixpoint monitor_all_from (T : Z) (script : list (Z * origin_reply * origin_reply)) (past : hist) (h : hist)
   : list (how * list (bytes * verdict)) :=
   match h with
   | [] => []
@@ -710,8 +742,9 @@ Fixpoint monitor_all_from (script : list (Z * origin_reply * origin_reply)) (pas
         (bs "C07", mon_C07 script past q o); (bs "C08", mon_C08 script past q o);
         (bs "C09", mon_C09 script past q o); (bs "C10", mon_C10 o); (bs "C11", mon_C11 script past o);
         (bs "C13", mon_C13 script past q o); (bs "C18", mon_C18 script prefix q o);
-        (bs "C19", mon_C19 past q o)])
-      :: monitor_all_from script (past ++ [(q, o)]) r
+        (bs "C19", mon_C19 past q o); (bs "C20", mon_C20 T script prefix q o)])
+      :: monitor_all_from T script (past ++ [(q, o)]) r
   end.
 
-Definition monitor_all script (h : hist) := monitor_all_from script [] h.
+(* [swr_setting]: the WithSWRTimeout argument of the case *)
+Definition monitor_all (swr_setting : Z) script (h : hist) := monitor_all_from (effective_swr_timeout swr_setting) script [] h.
